@@ -9,6 +9,7 @@ import (
 	"fmt"
 	"io"
 	"math"
+	"os"
 	"os/exec"
 	"strconv"
 	"strings"
@@ -165,6 +166,10 @@ func (s *Solver) Check(decls []string, asserts []string, evals []string) (string
 		}
 	}
 	d := time.Since(t0)
+	if dumpDir != "" && d > 2*time.Second {
+		dumpSeq++
+		_ = os.WriteFile(fmt.Sprintf("%s/q%d_%s_%dms.smt2", dumpDir, dumpSeq, res, d.Milliseconds()), []byte(sb.String()), 0o644)
+	}
 	s.Queries++
 	s.Wall += d
 	if d > s.MaxQuery {
@@ -184,6 +189,9 @@ func (s *Solver) Check(decls []string, asserts []string, evals []string) (string
 }
 
 var LastSolverError string
+
+var dumpDir = os.Getenv("GOSYM_DUMPQ")
+var dumpSeq int
 
 // ---- tiny s-expression reader ----
 
@@ -335,4 +343,89 @@ func parseModelValue(txt string) (ModelValue, error) {
 		return ModelValue{Kind: "bv", U: u, W: w}, err
 	}
 	return ModelValue{}, fmt.Errorf("unparsed value %q", txt)
+}
+
+// ReadableModel decodes raw solver values for display.
+func ReadableModel(m map[string]string) map[string]interface{} {
+	out := map[string]interface{}{}
+	for k, v := range m {
+		mv, err := parseModelValue(v)
+		if err != nil {
+			out[k] = v
+			continue
+		}
+		switch mv.Kind {
+		case "bool":
+			out[k] = mv.B
+		case "f64":
+			out[k] = mv.F
+		case "int":
+			out[k] = mv.I
+		case "bv":
+			if mv.W == 64 {
+				out[k] = fmt.Sprintf("%d (u %d)", int64(mv.U), mv.U)
+			} else {
+				out[k] = mv.U
+			}
+		}
+	}
+	return out
+}
+
+func ParseModelValue(txt string) (ModelValue, error) { return parseModelValue(txt) }
+func Float64bits(f float64) uint64                   { return math.Float64bits(f) }
+
+// StringForModel builds a concrete string for a symbolic string from its model facts.
+func StringForModel(term string, model map[string]string) string {
+	get := func(k string) (uint64, bool) {
+		raw, ok := model[k]
+		if !ok {
+			return 0, false
+		}
+		mv, err := parseModelValue(raw)
+		if err != nil {
+			return 0, false
+		}
+		return mv.U, true
+	}
+	// if the string equals an interned literal in the model, use it
+	if raw, ok := model[term]; ok {
+		if mv, err := parseModelValue(raw); err == nil && mv.Kind == "int" && mv.I >= 0 {
+			internMu.Lock()
+			if int(mv.I) < len(litByID) {
+				s := litByID[mv.I]
+				internMu.Unlock()
+				return s
+			}
+			internMu.Unlock()
+		}
+	}
+	bl, _ := get("(blen " + term + ")")
+	rl, _ := get("(rlen " + term + ")")
+	return synthString(int(bl), int(rl))
+}
+
+// synthString returns a string with the given byte and rune lengths (rl <= bl <= 4*rl).
+func synthString(bl, rl int) string {
+	if rl <= 0 || bl < rl {
+		return ""
+	}
+	extra := bl - rl
+	var sb strings.Builder
+	for i := 0; i < rl; i++ {
+		switch {
+		case extra >= 3:
+			sb.WriteString("𝄞")
+			extra -= 3
+		case extra == 2:
+			sb.WriteString("日")
+			extra -= 2
+		case extra == 1:
+			sb.WriteString("é")
+			extra--
+		default:
+			sb.WriteString("q")
+		}
+	}
+	return sb.String()
 }
